@@ -58,6 +58,36 @@ BATCHES = {
          "                let arc_event = Arc::new(event.clone());\n                self.send_to_dlq(&error_msg, &[arc_event]);\n                Err(e)",
          "                let _ = error_msg;\n                Err(e)", "send"),
     ],
+    "3": [
+        ("C24", "late-data gate: lateness bound strict", R + "engine/mod.rs",
+         "if event.timestamp >= effective_wm - cfg.allowed_lateness {", "if event.timestamp > effective_wm - cfg.allowed_lateness {", ""),
+        ("C21", "a store prunes the newest checkpoints", R + "persistence.rs",
+         "        let to_delete = checkpoints.len().saturating_sub(keep);\n\n        for id in checkpoints.iter().take(to_delete) {",
+         "        let to_delete = checkpoints.len().saturating_sub(keep);\n\n        for id in checkpoints.iter().rev().take(to_delete) {", ""),
+        ("C30", "admission needs more than one token", K + "rate_limit.rs",
+         "        self.refill();\n\n        if self.tokens >= 1.0 {", "        self.refill();\n\n        if self.tokens > 1.0 {", ""),
+        ("C33", "sweep marks unhealthy at elapsed == timeout", K + "health.rs",
+         "        if worker.last_heartbeat.elapsed() > timeout {", "        if worker.last_heartbeat.elapsed() >= timeout {", ""),
+        ("C03", "Kleene cap off by one", R + "sase.rs",
+         "        if let Some(ref kc) = run.kleene_capture {\n            if kc.next_var >= limits.max_events {\n                return RunAdvanceResult::Continue;",
+         "        if let Some(ref kc) = run.kleene_capture {\n            if kc.next_var > limits.max_events {\n                return RunAdvanceResult::Continue;", ""),
+        ("C12", "session closes at gap equality", R + "window.rs",
+         "            if event_time - last_time > self.gap {", "            if event_time - last_time >= self.gap {", ""),
+        ("C32", "teardown leaves assigned_pipelines", K + "coordinator.rs",
+         "                w.assigned_pipelines.retain(|p| p != name);\n                w.capacity.pipelines_running = w.capacity.pipelines_running.saturating_sub(1);",
+         "                w.capacity.pipelines_running = w.capacity.pipelines_running.saturating_sub(1);", ""),
+        ("C31", "prefix test on strings", C + "security.rs",
+         "    if !canonical.starts_with(&workdir_canonical) {", "    if !canonical.to_string_lossy().starts_with(&*workdir_canonical.to_string_lossy()) {", ""),
+        ("C29", "DELETE /workers/{id} loses path::end()", K + "api.rs",
+         "        .and(warp::path::param::<String>())\n        .and(warp::path::end())\n        .and(warp::delete())\n        .and(rate_limit_filter.clone())\n        .and(with_rbac(rbac.clone(), Role::Admin))\n        .and(with_coordinator(coordinator.clone()))\n        .and_then(handle_delete_worker);",
+         "        .and(warp::path::param::<String>())\n        .and(warp::delete())\n        .and(rate_limit_filter.clone())\n        .and(with_rbac(rbac.clone(), Role::Admin))\n        .and(with_coordinator(coordinator.clone()))\n        .and_then(handle_delete_worker);", "path-end"),
+        ("C35", "apply_command reads the clock", K + "raft/state_machine.rs",
+         "                    status: \"ready\".to_string(),\n                    cpu_cores: capacity.cpu_cores,",
+         "                    status: format!(\"ready@{}\", std::time::SystemTime::now().duration_since(std::time::UNIX_EPOCH).map(|d| d.as_secs()).unwrap_or(0)),\n                    cpu_cores: capacity.cpu_cores,", ""),
+        ("C38", "create_connector no longer replicates", K + "api.rs",
+         "        let cmd = crate::raft::ClusterCommand::ConnectorCreated {\n            name: body.name.clone(),\n            connector: body.clone(),\n        };\n        if let Err(e) = handle.raft.client_write(cmd).await {\n            return Ok(cluster_error_response(ClusterError::NotLeader(\n                e.to_string(),\n            )));\n        }\n",
+         "        let _ = handle;\n", "handle_create_connector"),
+    ],
     "2": [
         ("C02", "partitioned run loop keeps a completed run", R + "sase.rs",
          "                    RunAdvanceResult::Complete(result) => {\n                        completed.push(result);\n                        runs.swap_remove(i);\n",
